@@ -24,7 +24,7 @@ impl Hist for C07 {
         for &x in &self.xs {
             v.extend([BOp::Inc(x), BOp::Dec(x), BOp::SetPos(x), BOp::SetLen(x), BOp::IncLen(x), BOp::DecLen(x), BOp::UpdatePos(x), BOp::UpdateLen(x)]);
         }
-        v.extend([BOp::UnsetLen, BOp::Reset, BOp::Finish, BOp::Abandon, BOp::FinishClear, BOp::Tick, BOp::FinishUsingStyle, BOp::FinishMsg("f"), BOp::AbandonMsg("a")]);
+        v.extend([BOp::UnsetLen, BOp::Reset, BOp::Finish, BOp::Abandon, BOp::FinishClear, BOp::Tick, BOp::FinishUsingStyle, BOp::FinishMsg("f"), BOp::AbandonMsg("a"), BOp::WrapIter3]);
         v
     }
 
@@ -110,7 +110,7 @@ pub fn run(tier: Tier, shard: Shard, stats: &mut Stats) {
 pub fn meta(tier: Tier) -> Meta {
     Meta {
         level: "model_checking",
-        rule: "stateless DFS over all histories of inc/dec/set_position/set_length/inc_length/dec_length/update(set_pos)/update(set_len) with arguments from {0,1,2,2^63,u64::MAX-1,u64::MAX} plus unset_length/reset/finish/abandon/finish_and_clear/finish_using_style/finish_with_message/abandon_with_message/tick to the stated depth; after every history position()/length()/is_finished() are compared with a wrapping/saturating u64 reference and the completed fraction (captured through a custom key) and {percent} are checked; non-trivial = position or length changed. The concurrent-increment clause is decided by the loom engine (bin/check-loom L07), reported in this property's evidence under coverage.loom".into(),
+        rule: "stateless DFS over all histories of inc/dec/set_position/set_length/inc_length/dec_length/update(set_pos)/update(set_len) with arguments from {0,1,2,2^63,u64::MAX-1,u64::MAX} plus unset_length/reset/finish/abandon/finish_and_clear/finish_using_style/finish_with_message/abandon_with_message/tick and a wrapped iterator driven to exhaustion, to the stated depth; after every history position()/length()/is_finished() are compared with a wrapping/saturating u64 reference and the completed fraction (captured through a custom key) and {percent} are checked; non-trivial = position or length changed. The concurrent-increment clause is decided by the loom engine (bin/check-loom L07), reported in this property's evidence under coverage.loom".into(),
         assumptions: vec!["overflow checks are enabled in the build, so silent wrap-around inside the crate would panic".into()],
         bounds: json!({"configurations": configs(tier).iter().map(|(c, d)| json!({"initial_length": c.len0, "arguments": c.xs, "depth": d, "alphabet": c.alphabet(&[]).len()})).collect::<Vec<_>>()}),
         exhaustive: true,
